@@ -18,6 +18,7 @@ require (
 	github.com/iotaledger/hive.go/serializer/v2 v2.0.0
 	github.com/iotaledger/hive.go/stringify v0.0.0
 	github.com/iotaledger/hive.go/web v0.0.0
+	nhooyr.io/websocket v1.8.10
 )
 
 require (
@@ -25,7 +26,9 @@ require (
 	github.com/holiman/uint256 v1.2.4 // indirect
 	github.com/iancoleman/orderedmap v0.3.0 // indirect
 	github.com/kr/text v0.2.0 // indirect
+	github.com/pelletier/go-toml/v2 v2.2.0 // indirect
 	github.com/pokt-network/smt v0.9.2 // indirect
+	gopkg.in/yaml.v3 v3.0.1 // indirect
 )
 
 replace (
